@@ -20,7 +20,7 @@ PROPERTY = "C09"
 LEVEL = "model_checking"
 FANOUT_CHUNK = 2
 RULE = (
-    "fault kinds {NaN/inf in ra|dec|weight|redshift; columns of unequal length; missing column; patch id "
+    "fault kinds {NaN/inf in ra|dec|weight|redshift; columns of unequal length (HDF5: which column x shorter/longer by 1..3 x chunk sizes that do / do not divide the lengths); missing column; patch id "
     "-1|32768|65538|-65535; a centre without object; no patch method; target exists as {catalog, directory "
     "with foreign content, empty directory, regular file} x overwrite {F,T}; parent directory missing; exception "
     "injected into the k-th worker task / the k-th writer call; overwrite + late fault} x chunk position "
@@ -63,6 +63,10 @@ def cases(tier, seed):
         if tier != "quick":
             out.append(dict(fault="patch-id", val=val, pos=pos, source="hdf"))
     out.append(dict(fault="length", source="hdf"))
+    # one HDF5 dataset shorter or longer than the others, for chunk lengths that do and do not divide the lengths
+    deltas, chunks = ((-2, -1, 2), (2, None)) if tier == "quick" else ((-3, -2, -1, 1, 2, 3), (1, 2, 3, 4, 6, None))
+    for col, delta, chunk in itertools.product(("ra", "dec", "w", "z"), deltas, chunks):
+        out.append(dict(fault="length", source="hdf", col=col, delta=delta, chunk=chunk))
     for src in srcs:
         out.append(dict(fault="missing-column", source=src))
     for k in range(3):
@@ -152,7 +156,10 @@ class Scenario:
             self.file = os.path.join(d, "input.hdf5")
             with h5py.File(self.file, "w") as fh:
                 for k, v in cols.items():
-                    fh.create_dataset(k, data=v[:-1] if (f == "length" and k == "z") else v)
+                    if f == "length" and k == case.get("col", "z"):
+                        delta = case.get("delta", -1)
+                        v = v[:delta] if delta < 0 else np.concatenate([v, v[:delta] + 0.125])
+                    fh.create_dataset(k, data=v)
         self.inject = (case["where"], case["k"]) if f == "inject" else None
         self.expect_ok = f == "none" or (f == "exists" and case["pre"] == "catalog" and case["overwrite"])
 
